@@ -147,6 +147,15 @@ CHECKS = {
             "specification's grammar and have the tree's truth table under every assignment to its atoms.",
             "Trusted: TLC, the harness tokenizer. A clause with || at its top level is supplied by patching type_value_rewrite (no "
             "shipped rewriter emits one).", "5/C18"),
+    "C19": ("TLA+ spec C7nValue (op table as relations, value_type transforms, literal and duration-literal contracts over CelLiteral / "
+            "CelTime, CelSyntax!Parse for emitted text) checked by TLC; every case translated by the real rewriter and evaluated by the "
+            "real evaluator; every emitted literal / duration / table entry judged by TLC (Trace_C19)",
+            "TLC enumerates ops x value kinds x value_type transforms x resources on both sides of each comparison boundary with the "
+            "decision the named relation gives, policy strings over quotes / backslashes / control / non-ASCII characters, day and second "
+            "counts, and the harness discovers every (rewriter, resource type) table entry from the translator's source; the emitted "
+            "clause must give the specified match decision, each literal must decode to the original string, each duration literal "
+            "must denote the count, and every emitted text must parse.",
+            "Trusted: TLC, the harness tokenizer. Duration literals are read in the translator's dialect (unit d).", "5/C19"),
 }
 NOT_YET = "check not built yet in this phase (planned per DESIGN.md section 5)"
 
